@@ -19,6 +19,9 @@ func main() {
 	switch os.Args[1] {
 	case "run":
 		runOps(os.Stdin, os.Stdout)
+	case "conc":
+		n, _ := strconv.Atoi(os.Args[2])
+		runConcurrent(os.Stdin, os.Stdout, n)
 	case "gen":
 		seed, _ := strconv.ParseUint(os.Args[4], 10, 64)
 		w := bufio.NewWriterSize(os.Stdout, 1<<20)
